@@ -458,6 +458,7 @@ calc_grep_atom(const char *fmt)
 	int8_t andl_min = 0, andl_max = 0;
 	int8_t bndl_min = 0, bndl_max = 0;
 	int8_t pndl_min = 0, pndl_max = 0;
+	const char *ofmt = NULL;
 
 	/* init */
 	if (fmt == NULL) {
@@ -474,7 +475,10 @@ calc_grep_atom(const char *fmt)
 		res.pl.off_max = -1;
 		goto out;
 	} else {
-		/* try and transform shortcuts */
+		/* try and transform shortcuts, the needle comes from the
+		 * date part, the reader gets the name so that it reads
+		 * a time of day behind the date as it does for arguments */
+		ofmt = fmt;
 		switch (__trans_dfmt(&fmt)) {
 		default:
 			break;
@@ -733,7 +737,7 @@ post_snarf:
 out:
 	/* finally assign the format */
 	if (res.needle || res.pl.flags) {
-		res.pl.fmt = fmt;
+		res.pl.fmt = ofmt != NULL ? ofmt : fmt;
 	}
 	return res;
 }
